@@ -701,3 +701,395 @@ Qed.
 Lemma Inv_reachable i0 c0 ts sched :
   c0 <> PcClosed -> Inv (run (init_with i0 c0 ts) sched).
 Proof. intros H. apply Inv_run. apply Inv_init; auto. Qed.
+
+(* ---------- termination: the variant ---------- *)
+
+Fixpoint msum (l : list thread) : nat :=
+  match l with [] => 0 | t :: r => thread_measure t + msum r end.
+
+Lemma measure_msum s : measure s = msum (threads s).
+Proof. unfold measure. induction (threads s) as [|t r IH]; simpl; auto. Qed.
+
+Lemma msum_upd l n t t' :
+  nth_error l n = Some t -> msum (upd l n t') + thread_measure t = msum l + thread_measure t'.
+Proof.
+  revert n; induction l as [|h r IH]; intros [|n] H; simpl in *; try discriminate.
+  - inversion H; subst. lia.
+  - specialize (IH n H). lia.
+Qed.
+
+Lemma threads_ucs_commit s v : threads (ucs_commit s v) = threads s.
+Proof. unfold ucs_commit. destruct (pcs_eqb (connState s) v); reflexivity. Qed.
+
+Lemma step_measure s tid s' : step s tid = Some s' -> measure s' < measure s.
+Proof.
+  intros H. rewrite !measure_msum. unfold step in H.
+  destruct (nth_error (threads s) tid) as [t|] eqn:Hn; [|discriminate].
+  destruct t as [g pc ac ag | i d pc].
+  - destruct pc; cbn [step_closer] in H;
+      repeat match type of H with
+             | (if ?b then _ else _) = _ => destruct b
+             end;
+      try discriminate; inversion H; subst; cbn [threads set_thread close_closeDone
+        close_gracefulDone do_graceful_ops do_swap do_teardown set_lock];
+      rewrite ?threads_ucs_commit;
+      match goal with
+      | |- msum (upd _ _ ?t') < _ =>
+          pose proof (msum_upd _ _ _ t' Hn) as Hm; simpl in Hm; clear - Hm; lia
+      end.
+  - destruct pc; cbn [step_updater] in H;
+      repeat match type of H with
+             | (if ?b then _ else _) = _ => destruct b
+             end;
+      try discriminate; inversion H; subst; cbn [threads set_thread set_lock];
+      rewrite ?threads_ucs_commit;
+      match goal with
+      | |- msum (upd _ _ ?t') < _ =>
+          pose proof (msum_upd _ _ _ t' Hn) as Hm; simpl in Hm; clear - Hm; lia
+      end.
+Qed.
+
+Lemma taken_bound s sched : taken s sched + measure (run s sched) <= measure s.
+Proof.
+  revert s; induction sched as [|tid r IH]; intros s; simpl; [lia|].
+  unfold step_skip. destruct (step s tid) as [s1|] eqn:E.
+  - pose proof (step_measure _ _ _ E). specialize (IH s1). lia.
+  - apply IH.
+Qed.
+
+Lemma measure_init i0 c0 ts : measure (init_with i0 c0 ts) <= 6 * length ts.
+Proof.
+  rewrite measure_msum. simpl. induction ts as [|t r IH]; simpl; [lia|].
+  destruct t; simpl; lia.
+Qed.
+
+(* ---------- progress: a state with an unfinished thread is not stuck ---------- *)
+
+Definition simple (t : thread) : bool :=
+  match t with
+  | Closer _ CStart _ _ | Closer _ CSwapped _ _ | Closer _ CTorndown _ _
+  | Closer _ CGraceful _ _ => true
+  | Updater _ _ UStart => true
+  | _ => false
+  end.
+
+Lemma enabled_simple s n t :
+  nth_error (threads s) n = Some t -> ucsLock s = false -> simple t = true ->
+  step s n <> None.
+Proof.
+  intros Hn El Hs. unfold step. rewrite Hn.
+  destruct t as [g pc ac ag | i d pc]; destruct pc; simpl in Hs; try discriminate; simpl;
+    rewrite ?El; try discriminate.
+  all: try (destruct ac, g, ag; simpl; discriminate).
+Qed.
+
+Lemma enabled_holder s n t :
+  nth_error (threads s) n = Some t -> holds_lock t = true -> step s n <> None.
+Proof.
+  intros Hn Hl. unfold step. rewrite Hn.
+  destruct t as [g pc ac ag | i d pc]; destruct pc; simpl in Hl; try discriminate; simpl.
+  all: try (destruct g; discriminate); try discriminate.
+Qed.
+
+Lemma count_ge f l n t : nth_error l n = Some t -> f t = true -> 1 <= count f l.
+Proof.
+  revert n; induction l as [|h r IH]; intros [|n] Hn Hf; simpl in *; try discriminate.
+  - inversion Hn; subst. rewrite Hf. simpl. lia.
+  - specialize (IH n Hn Hf). lia.
+Qed.
+
+Lemma forallb_false_nth {A} (f : A -> bool) l :
+  forallb f l = false -> exists n t, nth_error l n = Some t /\ f t = false.
+Proof.
+  induction l as [|h r IH]; simpl; intros H; [discriminate|].
+  destruct (f h) eqn:E.
+  - simpl in H. destruct (IH H) as (n & t & Hn & Ht). exists (S n), t; auto.
+  - exists 0, h; auto.
+Qed.
+
+(* a thread waiting on isCloseDone: the channel is closed, or its owner can move *)
+Lemma waitC_progress s :
+  Inv s -> ucsLock s = false -> isClosed s = true ->
+  closeDone s = true \/ exists m, step s m <> None.
+Proof.
+  intros I El Hcl. destruct (closeDone s) eqn:Ecd; auto. right.
+  pose proof (inv_first s I) as If. rewrite Hcl in If. simpl in If.
+  destruct (count_pos_ex is_first (threads s)) as (m & f & Hm & Hf); [lia|].
+  exists m.
+  pose proof (Forall_nth _ _ _ _ (inv_threads s I) Hm) as Ht. unfold tok_s in Ht.
+  destruct f as [g pc ac ag | ]; simpl in Hf; try discriminate.
+  destruct pc; try discriminate; destruct ac; try discriminate.
+  - eapply enabled_simple; eauto.
+  - simpl in Ht. destruct Ht as (_ & Hx & _). discriminate.
+  - simpl in Ht. destruct Ht as (_ & Hx & _). discriminate.
+  - eapply enabled_simple; eauto.
+  - eapply enabled_holder; eauto.
+  - eapply enabled_simple; eauto.
+  - pose proof (count_ge is_first_done _ _ _ Hm eq_refl) as Hc.
+    rewrite (inv_cdone s I), Ecd in Hc. simpl in Hc. lia.
+Qed.
+
+Lemma waitG_progress s :
+  Inv s -> ucsLock s = false -> isClosed s = true -> gflag s = true ->
+  gracefulDone s = true \/ exists m, step s m <> None.
+Proof.
+  intros I El Hcl Hgf. destruct (gracefulDone s) eqn:Egd; auto. right.
+  pose proof (inv_owner s I) as Io. rewrite Hgf in Io. simpl in Io.
+  destruct (count_pos_ex is_gowner (threads s)) as (m & f & Hm & Hf); [lia|].
+  pose proof (Forall_nth _ _ _ _ (inv_threads s I) Hm) as Ht. unfold tok_s in Ht.
+  destruct f as [g pc ac ag | ]; simpl in Hf; try discriminate.
+  destruct pc; try discriminate; destruct g; try discriminate; destruct ag; try discriminate.
+  - exists m. eapply enabled_simple; eauto.
+  - simpl in Ht. destruct Ht as (_ & _ & _ & Hx). discriminate.
+  - (* the owner itself waits for isCloseDone *)
+    destruct (waitC_progress s I El Hcl) as [Hcd | Hex]; auto.
+    exists m. unfold step. rewrite Hm. simpl. rewrite Hcd. discriminate.
+  - exists m. eapply enabled_simple; eauto.
+  - exists m. eapply enabled_holder; eauto.
+  - exists m. eapply enabled_simple; eauto.
+  - pose proof (count_ge is_gowner_done _ _ _ Hm eq_refl) as Hc.
+    rewrite (inv_gdone s I), Egd in Hc. simpl in Hc. lia.
+Qed.
+
+Lemma progress s : Inv s -> all_done s = false -> exists tid, step s tid <> None.
+Proof.
+  intros I Hnd. destruct (ucsLock s) eqn:El.
+  - pose proof (inv_hold s I) as Ih. rewrite El in Ih. simpl in Ih.
+    destruct (count_pos_ex holds_lock (threads s)) as (n & t & Hn & Hl); [lia|].
+    exists n. eapply enabled_holder; eauto.
+  - unfold all_done in Hnd. destruct (forallb_false_nth _ _ Hnd) as (n & t & Hn & Ht).
+    pose proof (Forall_nth _ _ _ _ (inv_threads s I) Hn) as Hok. unfold tok_s in Hok.
+    pose proof (inv_hold s I) as Ih. rewrite El in Ih. simpl in Ih.
+    pose proof (count_zero_nth holds_lock _ _ _ Ih Hn) as Hnl.
+    destruct t as [g pc ac ag | i d pc].
+    + destruct pc; simpl in Ht, Hnl; try discriminate;
+        try (exists n; eapply enabled_simple; eauto; fail).
+      * (* CWaitG *)
+        simpl in Hok. destruct Hok as ((Hcl & Hgg & Hagg & _) & _ & _ & Hag).
+        destruct (waitG_progress s I El Hcl (Hagg Hag)) as [Hgd | Hex]; auto.
+        exists n. unfold step. rewrite Hn. simpl. rewrite Hgd. discriminate.
+      * (* CWaitC *)
+        simpl in Hok. destruct Hok as ((Hcl & _) & _).
+        destruct (waitC_progress s I El Hcl) as [Hcd | Hex]; auto.
+        exists n. unfold step. rewrite Hn. simpl. rewrite Hcd. discriminate.
+    + destruct pc; simpl in Ht, Hnl; try discriminate.
+      exists n. eapply enabled_simple; eauto.
+Qed.
+
+Lemma stuck_all_done s : Inv s -> stuck s -> all_done s = true.
+Proof.
+  intros I Hst. destruct (all_done s) eqn:E; auto.
+  destruct (progress s I E) as [tid Ht]. exfalso. apply Ht. apply Hst.
+Qed.
+
+(* ---------- what the invariant gives ---------- *)
+
+Lemma count_le_impl f g l :
+  (forall t, f t = true -> g t = true) -> count f l <= count g l.
+Proof.
+  intros H. induction l as [|h r IH]; simpl; auto.
+  destruct (f h) eqn:E.
+  - rewrite (H h E). simpl. lia.
+  - destruct (g h); simpl; lia.
+Qed.
+
+Lemma teardown_le_1 s : Inv s -> teardowns s <= 1.
+Proof.
+  intros I. rewrite <- (inv_torn s I).
+  etransitivity; [apply (count_le_impl torn is_first)|].
+  - intros [g pc ac ag|]; simpl; try discriminate. destruct pc, ac; auto.
+  - rewrite (inv_first s I). apply b2n_le.
+Qed.
+
+Lemma graceful_le_1 s : Inv s -> gracefulOps s <= 1.
+Proof.
+  intros I. rewrite <- (inv_gops s I).
+  etransitivity; [apply (count_le_impl is_gowner_done is_gowner)|].
+  - intros [g pc ac ag|]; simpl; try discriminate. destruct g, pc, ag; auto.
+  - rewrite (inv_owner s I). apply b2n_le.
+Qed.
+
+Lemma forallb_nth {A} (f : A -> bool) l n t :
+  forallb f l = true -> nth_error l n = Some t -> f t = true.
+Proof.
+  intros H Hn. rewrite forallb_forall in H. apply H. eapply nth_error_In; eauto.
+Qed.
+
+Lemma started_closed s n g pc ac ag :
+  Inv s -> nth_error (threads s) n = Some (Closer g pc ac ag) -> pc <> CStart ->
+  isClosed s = true.
+Proof.
+  intros I Hn Hpc. pose proof (Forall_nth _ _ _ _ (inv_threads s I) Hn) as Ht.
+  unfold tok_s in Ht. destruct pc; simpl in Ht; try congruence; tauto.
+Qed.
+
+(* once every closer has returned (and there was one) the state is final *)
+Lemma final_state s n t :
+  Inv s -> closers_done s = true -> nth_error (threads s) n = Some t -> is_closer t = true ->
+  isClosed s = true /\ sigClosed s = true /\ connState s = PcClosed /\
+  closeDone s = true /\ teardowns s = 1 /\ panicked s = false.
+Proof.
+  intros I Hcd Hn Hc.
+  assert (isClosed s = true) as Hcl.
+  { destruct t as [g pc ac ag|]; try discriminate.
+    pose proof (forallb_nth _ _ _ _ Hcd Hn) as Hd. simpl in Hd.
+    eapply (started_closed s n g pc ac ag I Hn). destruct pc; simpl in Hd; try discriminate. }
+  pose proof (inv_first s I) as If. rewrite Hcl in If. simpl in If.
+  destruct (count_pos_ex is_first (threads s)) as (m & f & Hm & Hf); [lia|].
+  pose proof (forallb_nth _ _ _ _ Hcd Hm) as Hfd.
+  pose proof (Forall_nth _ _ _ _ (inv_threads s I) Hm) as Hok. unfold tok_s in Hok.
+  destruct f as [g pc ac ag|]; simpl in Hf; try discriminate.
+  destruct pc; simpl in Hfd; try discriminate. destruct ac; try discriminate.
+  simpl in Hok. destruct Hok as (_ & Hcsc). specialize (Hcsc eq_refl).
+  apply pcs_eqb_eq in Hcsc.
+  pose proof (count_ge is_first_done _ _ _ Hm eq_refl) as H1.
+  rewrite (inv_cdone s I) in H1.
+  pose proof (count_ge torn _ _ _ Hm eq_refl) as H2. rewrite (inv_torn s I) in H2.
+  pose proof (teardown_le_1 s I) as H3.
+  assert (teardowns s = 1) as Ht1 by lia.
+  repeat split; auto.
+  - rewrite (inv_sig s I), Ht1. reflexivity.
+  - destruct (closeDone s); auto. simpl in H1. lia.
+  - apply (inv_panic s I).
+Qed.
+
+(* ... and if a GracefulClose caller was among them the graceful-only steps ran *)
+Lemma final_state_graceful s n g pc ac ag :
+  Inv s -> closers_done s = true -> nth_error (threads s) n = Some (Closer true pc ac ag) ->
+  g = true -> gracefulDone s = true /\ gracefulOps s = 1.
+Proof.
+  intros I Hcd Hn _.
+  pose proof (forallb_nth _ _ _ _ Hcd Hn) as Hd. simpl in Hd.
+  assert (pc = CDone) as Hpc by (destruct pc; simpl in Hd; try discriminate; auto). subst pc.
+  pose proof (Forall_nth _ _ _ _ (inv_threads s I) Hn) as Hok. unfold tok_s in Hok.
+  simpl in Hok. destruct Hok as ((_ & Hgg & _) & _). specialize (Hgg eq_refl).
+  pose proof (inv_owner s I) as Io. rewrite Hgg in Io. simpl in Io.
+  destruct (count_pos_ex is_gowner (threads s)) as (m & f & Hm & Hf); [lia|].
+  pose proof (forallb_nth _ _ _ _ Hcd Hm) as Hfd.
+  destruct f as [g' pc' ac' ag'|]; simpl in Hf; try discriminate.
+  destruct pc'; simpl in Hfd; try discriminate.
+  destruct g'; try discriminate. destruct ag'; try discriminate.
+  pose proof (count_ge is_gowner_done _ _ _ Hm eq_refl) as H1.
+  pose proof (graceful_le_1 s I) as H2.
+  pose proof (inv_gops s I) as H3. pose proof (inv_gdone s I) as H4.
+  split.
+  - destruct (gracefulDone s); auto. simpl in H4. lia.
+  - lia.
+Qed.
+
+Lemma api_guard_closed a has_remote :
+  In a all_apis -> entry_is_invalid_state (api_entry a true has_remote) = true.
+Proof. intros _. destruct a, has_remote; reflexivity. Qed.
+
+Lemma isClosed_step s tid s' : step s tid = Some s' -> isClosed s = true -> isClosed s' = true.
+Proof.
+  intros H Hc. unfold step in H.
+  destruct (nth_error (threads s) tid) as [t|]; [|discriminate].
+  destruct t as [g pc ac ag | i d pc].
+  - destruct pc; cbn [step_closer] in H;
+      repeat match type of H with (if ?b then _ else _) = _ => destruct b end;
+      try discriminate; inversion H; subst; simpl; auto;
+      unfold ucs_commit; destruct (pcs_eqb (connState s) v); simpl; auto.
+  - destruct pc; cbn [step_updater] in H;
+      repeat match type of H with (if ?b then _ else _) = _ => destruct b end;
+      try discriminate; inversion H; subst; simpl; auto;
+      unfold ucs_commit; destruct (pcs_eqb (connState s) v); simpl; auto.
+Qed.
+
+Lemma isClosed_run s sched : isClosed s = true -> isClosed (run s sched) = true.
+Proof.
+  revert s; induction sched as [|tid r IH]; intros s H; simpl; auto.
+  apply IH. unfold step_skip. destruct (step s tid) eqn:E; auto. eapply isClosed_step; eauto.
+Qed.
+
+(* ---------- statements used by Properties/C21.v ---------- *)
+
+Definition reach (i0 : ice) (c0 : pcs) (ts : list tspec) (sched : list nat) : state :=
+  run (init_with i0 c0 ts) sched.
+
+Lemma all_return i0 c0 ts sched :
+  c0 <> PcClosed ->
+  (stuck (reach i0 c0 ts sched) -> all_done (reach i0 c0 ts sched) = true) /\
+  taken (init_with i0 c0 ts) sched <= 6 * length ts.
+Proof.
+  intros Hc. split.
+  - apply stuck_all_done. apply Inv_reachable; auto.
+  - pose proof (taken_bound (init_with i0 c0 ts) sched).
+    pose proof (measure_init i0 c0 ts). lia.
+Qed.
+
+Lemma unfinished_can_move i0 c0 ts sched :
+  c0 <> PcClosed -> all_done (reach i0 c0 ts sched) = false ->
+  exists tid, step (reach i0 c0 ts sched) tid <> None.
+Proof. intros Hc. apply progress. apply Inv_reachable; auto. Qed.
+
+Lemma teardown_once i0 c0 ts sched :
+  c0 <> PcClosed ->
+  teardowns (reach i0 c0 ts sched) <= 1 /\ panicked (reach i0 c0 ts sched) = false.
+Proof.
+  intros Hc. pose proof (Inv_reachable i0 c0 ts sched Hc) as I. split.
+  - apply teardown_le_1; auto.
+  - apply (inv_panic _ I).
+Qed.
+
+Lemma graceful_once i0 c0 ts sched :
+  c0 <> PcClosed -> gracefulOps (reach i0 c0 ts sched) <= 1.
+Proof. intros Hc. apply graceful_le_1. apply Inv_reachable; auto. Qed.
+
+Lemma final_state_reach i0 c0 ts sched n t :
+  c0 <> PcClosed ->
+  let s := reach i0 c0 ts sched in
+  closers_done s = true -> nth_error (threads s) n = Some t -> is_closer t = true ->
+  isClosed s = true /\ sigClosed s = true /\ connState s = PcClosed /\
+  closeDone s = true /\ teardowns s = 1 /\ panicked s = false.
+Proof. intros Hc s. apply final_state. apply Inv_reachable; auto. Qed.
+
+Lemma final_state_graceful_reach i0 c0 ts sched n pc ac ag :
+  c0 <> PcClosed ->
+  let s := reach i0 c0 ts sched in
+  closers_done s = true -> nth_error (threads s) n = Some (Closer true pc ac ag) ->
+  gracefulDone s = true /\ gracefulOps s = 1.
+Proof.
+  intros Hc s H1 H2. eapply (final_state_graceful s n true pc ac ag); eauto.
+  apply Inv_reachable; auto.
+Qed.
+
+Lemma no_state_after_closed i0 c0 ts sched :
+  c0 <> PcClosed -> closed_is_final (connLog (reach i0 c0 ts sched)) = true.
+Proof. intros Hc. apply (inv_log _ (Inv_reachable i0 c0 ts sched Hc)). Qed.
+
+(* closed_is_final says what it should *)
+Lemma closed_is_final_spec l :
+  closed_is_final l = true <->
+  (forall l1 l2 v, l = l1 ++ PcClosed :: l2 -> In v l2 -> v = PcClosed).
+Proof.
+  induction l as [|x r IH]; simpl.
+  - split; auto. intros _ l1 l2 v H. destruct l1; discriminate.
+  - destruct (pcs_eqb x PcClosed) eqn:E.
+    + apply pcs_eqb_eq in E. subst x. split.
+      * intros H l1 l2 v Hl Hv. rewrite forallb_forall in H.
+        destruct l1 as [|y l1]; simpl in Hl; inversion Hl; subst.
+        -- specialize (H v Hv). apply pcs_eqb_eq in H. auto.
+        -- assert (In v (l1 ++ PcClosed :: l2)) as Hin
+              by (apply in_or_app; right; right; auto).
+           specialize (H v Hin). apply pcs_eqb_eq in H. auto.
+      * intros H. apply forallb_forall. intros v Hv. apply pcs_eqb_eq. symmetry.
+        apply (H [] r v); auto.
+    + rewrite IH. split.
+      * intros H l1 l2 v Hl Hv. destruct l1 as [|y l1]; simpl in Hl; inversion Hl; subst.
+        -- rewrite pcs_eqb_refl in E. discriminate.
+        -- eapply H; eauto.
+      * intros H l1 l2 v Hl Hv. apply (H (x :: l1) l2 v); auto. simpl. rewrite Hl. reflexivity.
+Qed.
+
+Lemma api_guard_reach i0 c0 ts sched n g pc ac ag a has_remote :
+  c0 <> PcClosed ->
+  let s := reach i0 c0 ts sched in
+  nth_error (threads s) n = Some (Closer g pc ac ag) -> pc <> CStart ->
+  In a all_apis ->
+  entry_is_invalid_state (api_entry a (isClosed s) has_remote) = true.
+Proof.
+  intros Hc s Hn Hpc Ha.
+  rewrite (started_closed s n g pc ac ag (Inv_reachable i0 c0 ts sched Hc) Hn Hpc).
+  apply api_guard_closed; auto.
+Qed.
